@@ -450,14 +450,20 @@ def run(ctx):
             initial_parity[l] = {os.path.relpath(p, L.root): open(p, "rb").read() for p in L.parity_paths(l) if os.path.exists(p)}
         jobs = []
         hist_of = {}
-        for saved, hist in states:
+        for si, (saved, hist) in enumerate(states):
             L = X.materialize(cfg, saved, ctx.seed)
             try:
                 c = L.content()
             except (FileNotFoundError, C.ContentError):
                 continue
+            # quick: every filter on the states closest to the initial ones; further out the unfiltered fix plus two filters that
+            # rotate with the state (all six over any three consecutive states); thorough: every filter everywhere
+            if tier == "thorough" or si < 24:
+                flts = FILTERS
+            else:
+                flts = [FILTERS[0], FILTERS[1 + si % 5], FILTERS[1 + (si + 2) % 5]]
             for spec in damage_menu(L.cfg, c, tier):
-                for flt in FILTERS:
+                for flt in flts:
                     jobs.append((L.cfg, saved, spec, flt, ctx.seed, initial_parity))
             hist_of[id(saved)] = hist
         done = 0
